@@ -55,8 +55,8 @@ def main(tier):
     singles = [s for s in all_sets if len(s) == 1]
     pairs = [s for s in all_sets if len(s) == 2]
     if quick:
-        chosen = rnd.sample(singles, 40) + rnd.sample(pairs, 110)
-        per = 14
+        chosen = rnd.sample(singles, min(len(singles), 200)) + rnd.sample(pairs, 250)
+        per = 16
     else:
         chosen = singles + rnd.sample(pairs, min(len(pairs), 2500))
         per = 40
@@ -65,7 +65,7 @@ def main(tier):
         free = [p for p in pts if not any(RC.inside_closed(p, r) for r in st)]
         # one connector per router: other connectors' endpoints are vertices a route may not pass through,
         # which is outside the statement ("obstacle-avoiding paths" in scenes of rectangles)
-        for _ in range(per):
+        for _ in range(per if len(st) > 1 or not quick else 40):       # (quick: more connectors in the single-rectangle scenes, which are few)
             a, b = rnd.sample(free, 2)
             scenes.append({'mode': 1, 'P': rnd.choice(PENS), 'buf': 0, 'opts': 0, 'shapes': [RC.rect_poly(r) for r in st],
                            'conns': [(a[0], a[1], rnd.choice(masks), b[0], b[1], rnd.choice(masks))]})
